@@ -324,7 +324,7 @@ class MessageQueue(Entity):
 
         # Create delivery event
         delivery_event = Event(
-            time=now,
+            time=self._clock.now if self._clock else now,
             event_type="message_delivery",
             target=consumer,
             context={
